@@ -212,7 +212,7 @@ def explore(ctx, art):
     # 1. corpus first
     corpus = []
     for p in sorted(glob.glob(os.path.join(common.VERIF, "corpus", PROP, "*.json"))):
-        corpus += json.load(open(p)).get("input", [])
+        corpus += [l for l in json.load(open(p)).get("input", []) if l.split()[0] not in ("strm", "udpx")]
     if corpus:
         impl, model, verd = evaluate(art, corpus, par=2)
         if impl is None:
@@ -257,20 +257,173 @@ def explore(ctx, art):
         ctx.sample({"input": l[:400], "implementation": o[:400]})
 
 
-def run(ctx):
+# ---------------------------------------------------------------- the same round trips through the real entry points
+
+RX_OPTS = [4, 11, 11, 12, 15, 17, 2000, 2013, 300]
+
+
+def rx_msg(rng, big=False):
+    opts = []
+    for oid in sorted(rng.sample(RX_OPTS, rng.randrange(0, 4))):
+        ln = {4: rng.randrange(1, 9), 12: rng.randrange(0, 3), 17: rng.randrange(0, 3)}.get(oid, rng.choice([0, 1, 3, 13, 20]))
+        opts.append((oid, G.rbytes(rng, ln)))
+    pl = rng.choice([2100, 2500, 4096, 4100, 6000, 9000]) if big else rng.choice([0, 0, 1, 7, 40, 300])
+    return {"typ": 0, "mid": 0, "code": rng.choice([1, 2, 3, 4, 65, 69, 132]), "tok": G.rbytes(rng, rng.randrange(9)),
+            "opts": opts, "pay": bytes(rng.randrange(256) for _ in range(pl))}
+
+
+def gen_entry_lines(ctx):
+    """`strm`: streams of encoded messages through a real tcp session, chunk boundaries chosen around frame starts
+    (0..20 bytes into the next frame), big messages (> connection cache) directly followed by others.
+    `udpx`: request/response exchanges on a real udp connection with duplicates of earlier requests."""
+    rng = random.Random(ctx.seed * 2750159 + 29)
+    thorough = ctx.tier == "thorough"
+    lines = []
+    for k in range(900 if thorough else 120):
+        n = rng.choice([2, 2, 3, 4, 6])
+        msgs = [rx_msg(rng, big=(rng.random() < (0.6 if i < n - 1 else 0.2))) for i in range(n)]
+        cache = rng.choice([2048, 2048, 2048, 1024, 300, 64])
+        starts = []
+        off = 0
+        for m in msgs:
+            starts.append(off)
+            off += len(G.encode_tcp(m))
+        cuts = set()
+        for st in starts[1:]:
+            r = rng.random()
+            if r < 0.7:
+                cuts.add(st + rng.choice([1, 2, 3, 5, 8, 12, 13, 14, 20, rng.randrange(1, 14)]))
+            elif r < 0.85:
+                cuts.add(st)
+        for _ in range(rng.choice([0, 0, 1, 3])):
+            cuts.add(rng.randrange(1, off))
+        cuts = sorted(c for c in cuts if 0 < c < off)
+        lines.append("strm %s %d %s %d %s" % (rng.choice(["client", "client", "server"]), cache,
+                                              ",".join(map(str, cuts)) or "-", n, " ".join(G.fmt_msg(m) for m in msgs)))
+    for k in range(600 if thorough else 100):
+        nreq = rng.choice([2, 2, 3, 4, 6])
+        steps = []
+        mid0 = rng.randrange(1, 60000)
+        made = 0
+        while made < nreq:
+            steps.append("r:%d:%s:%s" % (mid0 + made, G.hexs(G.rbytes(rng, rng.randrange(0, 9))),
+                                         G.hexs(G.rbytes(rng, rng.choice([0, 1, 5, 5, 20, 100, 300])))))
+            made += 1
+            while made >= 2 and rng.random() < 0.5:
+                steps.append("d:%d" % rng.randrange(made - 1))      # duplicate of an EARLIER request: another reply was sent since
+        steps.append("d:0")
+        lines.append("udpx %d %s" % (len(steps), " ".join(steps)))
+    return lines
+
+
+def evaluate_entry(ctx, art, lines, tag="c01rx"):
+    impl = common.run_test_harness(ctx, art["rx"], "TestC01RX", lines, tag=tag)
+    if impl is None or len(impl) != len(lines):
+        return None, None, None
+    impl = [norm(o) for o in impl]
+    model = verd = None
+    if art.get("driver"):
+        model = par_pipe([art["driver"], "model"], lines, 4)
+        verd = par_pipe([art["driver"], "judge"], ["%s => %s" % (l, o) for l, o in zip(lines, impl)], 4)
+    return impl, model, verd
+
+
+def shrink_entry(ctx, art, line, clause):
+    f = line.split()
+    cands = [line]
+    if f[0] == "udpx":
+        st = f[2:]
+        news = [x for x in st if x.startswith("r:")]
+        for i in range(len(news)):
+            for j in range(len(news)):
+                if i != j:
+                    cands.append("udpx 3 %s %s d:0" % (news[i], news[j]))
+    cands = list(dict.fromkeys(cands))
+    impl, _, verd = evaluate_entry(ctx, art, cands, tag="c01rxshrink")
+    if impl is None or verd is None:
+        return line
+    hit = [c for c, v in zip(cands, verd) if v == "violates " + clause]
+    return min(hit, key=len) if hit else line
+
+
+def explore_entry(ctx, art):
+    if not art.get("rx"):
+        return 0
+    corpus = []
+    for p in sorted(glob.glob(os.path.join(common.VERIF, "corpus", PROP, "*.json"))):
+        corpus += [l for l in json.load(open(p)).get("input", []) if l.split()[0] in ("strm", "udpx")]
+    lines = corpus + gen_entry_lines(ctx)
+    impl, model, verd = evaluate_entry(ctx, art, lines)
+    if impl is None:
+        ctx.broken.append(("correspondence", "C01 entry-point harness run failed", ""))
+        return 0
+    if model is None or verd is None:
+        ctx.broken.append(("model", "C01 driver run failed (entry points)", ""))
+    hits = {}
+    for i, (l, o) in enumerate(zip(lines, impl)):
+        ctx.count("op-" + l.split()[0])
+        if o.startswith("panic") or o in ("bad-op", "conn-error"):
+            ctx.violations.append(common.Violation("no-crash", signature("no-crash", l), "%s -> %s" % (l[:200], o[:200]),
+                                                   {"input": [l], "observed": o}))
+            continue
+        if model is not None and model[i] != o and len([b for b in ctx.broken if b[0] == "correspondence"]) < 30:
+            ctx.broken.append(("correspondence", "C01 model vs implementation (entry points)",
+                               "%s: impl `%s` model `%s`" % (l[:200], o[:300], model[i][:300])))
+        if verd is not None:
+            ctx.count("verdict-" + verd[i].split()[0])
+            if verd[i] == "bad-op":
+                ctx.broken.append(("model", "C01 judge could not read the observation", "%s => %s" % (l[:200], o[:200])))
+            if verd[i].startswith("violates"):
+                hits.setdefault(verd[i].split(" ", 1)[1], []).append((l, o))
+    what = {"stream-roundtrip": "a stream of encoded well-formed messages was not delivered as the same messages",
+            "reply-roundtrip": "a datagram the connection sent does not decode to the message the application set for that exchange"}
+    for clause, hs in sorted(hits.items()):
+        ctx.count("violations-" + clause, len(hs))
+        hs.sort(key=lambda h: len(h[0]))
+        seen = set()
+        for l, o in hs[:3]:
+            small = shrink_entry(ctx, art, l, clause)
+            if small in seen:
+                continue
+            seen.add(small)
+            si, _, _ = evaluate_entry(ctx, art, [small], tag="c01rxone")
+            ctx.violations.append(common.Violation(
+                clause, signature(clause, small), "%s: %s: `%s`" % (small[:300], what.get(clause, clause), (si or [o])[0][:300]),
+                {"input": [small], "observed": (si or [o])[0], "judge": "violates " + clause, "cases_with_this_clause": len(hs)}))
+    return len(lines)
+
+
+def prepare(ctx):
     art = common.standard_prepare(ctx, MODULES, generated=GENERATED)
+    with common.Lock():
+        art["rx"] = common.build_test(ctx, "c01rx")
+    return art
+
+
+def run(ctx):
+    art = prepare(ctx)
     if art.get("hx"):
         explore(ctx, art)
+        n = explore_entry(ctx, art)
+        ctx.cov["evaluations"] += n
+        ctx.cov["traces_validated_against_impl"] += n
+        ctx.cov["rule"] += (" Entry points: %d cases — streams of 2..6 encoded messages (1 in 2 larger than the connection cache) "
+                            "through a real tcp.Client / tcp.Server-made session in chunks cut 0..20 bytes into the following frame, "
+                            "and request/response exchanges with duplicates on a real udp connection; judged for stream-roundtrip / "
+                            "reply-roundtrip." % n)
     return common.finish(ctx)
 
 
 def replay(ctx, rep):
-    art = common.standard_prepare(ctx, MODULES, generated=GENERATED)
+    art = prepare(ctx)
     lines = rep.get("input") or []
     if not lines:
         print("replay file names no failing input:", rep.get("no_longer_checks"))
         return common.finish(ctx) if not art["proofs_ok"] else 0
-    impl, model, verd = evaluate(art, lines)
+    if lines[0].split()[0] in ("strm", "udpx"):
+        impl, model, verd = evaluate_entry(ctx, art, lines, tag="replay")
+    else:
+        impl, model, verd = evaluate(art, lines)
     bad = 0
     for l, o, mo, v in zip(lines, impl or [], model or [""] * len(lines), verd or [""] * len(lines)):
         print("%s\n  implementation: %s\n  model:          %s\n  judge:          %s" % (l, o, mo, v))
